@@ -14,41 +14,9 @@ import z3
 # is honoured there (and is deterministic, so verdicts do not depend on machine load)
 RLIMIT_PER_MS = 1500
 
-# ... and some checks honour neither: a watchdog thread interrupts the context when a check overruns its timeout
-# (ctypes releases the GIL during the call); the interrupted check answers `unknown`.
-import threading as _threading
-
-_orig_set, _orig_check = z3.Solver.set, z3.Solver.check
-
-
-def _set(self, *args, **kw):
-    if len(args) == 2 and args[0] == "timeout":
-        self._pyvc_timeout_ms = int(args[1])
-    return _orig_set(self, *args, **kw)
-
-
-def _check(self, *assumptions):
-    ms = getattr(self, "_pyvc_timeout_ms", 30000)
-    fired = []
-
-    def fire():
-        fired.append(1)
-        self.ctx.interrupt()
-    t = _threading.Timer(ms / 1000.0 * 1.5 + 0.5, fire)
-    t.daemon = True
-    t.start()
-    try:
-        r = _orig_check(self, *assumptions)
-    except z3.Z3Exception:
-        if not fired:
-            raise
-        r = z3.unknown
-    finally:
-        t.cancel()
-    return r
-
-
-z3.Solver.set, z3.Solver.check = _set, _check
+# (a watchdog thread calling Z3_interrupt was tried and removed: it neither stopped the spinning check nor is it safe -
+# z3 objects released by the garbage collector on the other thread corrupted the context; the process-level kill of
+# pyvc/driver.py remains the last resort)
 
 from . import vals as V
 
